@@ -3,7 +3,7 @@
 import sys, os, re
 sys.path.insert(0, os.path.dirname(os.path.abspath(__file__)))
 import verus_run, common
-u = [x for x in common.load_units() if x['unit'] == sys.argv[1]][0]
+u = [x for x in common.load_units(True) if x['unit'] == sys.argv[1]][0]
 t, m = verus_run.weave(u)
 os.makedirs(common.VERUS_DIR, exist_ok=True)
 p = os.path.join(common.VERUS_DIR, u['unit'] + '.rs')
